@@ -47,6 +47,7 @@ class Frame:
 class Interp(OpsMixin, BuiltinsMixin, StdlibMixin):
     MAX_LOOP = 5000
     MAX_DEPTH = 120
+    MAX_RECURSION = 72
 
     def __init__(self, repo_root, package_dirs=("pyscsi",)):
         self.repo_root = repo_root
@@ -65,6 +66,7 @@ class Interp(OpsMixin, BuiltinsMixin, StdlibMixin):
         self.events = []
         self.journal = []
         self.callstack = []
+        self.rec_marks = {}
         self.watch = {}
         self.stubs = {}
         self.no_decide = 0
@@ -174,6 +176,7 @@ class Interp(OpsMixin, BuiltinsMixin, StdlibMixin):
         self.events = []
         self.journal = []
         self.callstack = []
+        self.rec_marks = {}
         self.notes = []
         self.loop_stack = []
         self.try_stack = []
@@ -1140,7 +1143,12 @@ class Interp(OpsMixin, BuiltinsMixin, StdlibMixin):
         if len(self.callstack) > self.MAX_DEPTH:
             raise AnalysisError("call-depth", f.qualname)
         depth = sum(1 for q, _ in self.callstack if q == f.qualname)
-        if depth >= 3 and not (depth < 80 and all(self.is_static(x) for x in list(args) + list(kwargs.values()))):
+        marks = self.rec_marks.setdefault(f.qualname, [])
+        # a recursive call made with no undetermined branch taken since the previous entry of the same function continues
+        # by a constant (a counter, a mask): it is followed; one that an undetermined condition (device content) let
+        # through is the recursion C11 is about
+        steady = bool(marks) and marks[-1] == self.dpos and depth < self.MAX_RECURSION and not self.loading
+        if depth >= 3 and not steady and not (depth < 80 and all(self.is_static(x) for x in list(args) + list(kwargs.values()))):
             # (a recursion over constants -- the bits of a mask, the items of a table -- is simply followed)
             self.event("recursion", func=f.qualname)
             return Unknown("recursion %s" % f.qualname)
@@ -1213,6 +1221,7 @@ class Interp(OpsMixin, BuiltinsMixin, StdlibMixin):
         nf = Frame(self, f.module, func=f, locals_=locs, parent=f.closure)
         self.visited.add(f.qualname)
         self.callstack.append((f.qualname, getattr(node, "lineno", None)))
+        marks.append(self.dpos)
         try:
             if getattr(f, "context_manager", False):
                 return CtxGen(f, locs)
@@ -1225,6 +1234,7 @@ class Interp(OpsMixin, BuiltinsMixin, StdlibMixin):
             return None
         finally:
             self.callstack.pop()
+            marks.pop()
 
     def is_immutable_value(self, v):
         v = norm_int(v)
@@ -1264,10 +1274,19 @@ class Interp(OpsMixin, BuiltinsMixin, StdlibMixin):
         """generator functions: collect yielded values eagerly"""
         out = []
         nf.yield_sink = out
+        n0 = len(self.events)
         try:
             self.exec_block(f.node.body, nf)
         except _Return:
             pass
+        finally:
+            # the body is run where the generator is *created*, all of it: exact for a body that only computes, wrong in
+            # time for one that acts on the outside world between its yields (python runs those actions when the consumer
+            # asks for the next item) -- such a generator is not followed
+            acts = [e for e in self.events[n0:] if e["kind"] == "external-call" and e["name"].split(".")[0] not in ("re", "struct", "binascii", "codecs")]
+            if acts and (not self.loading or self.exploring):
+                raise AnalysisError("unmodelled-generator", "generator %s calls %s between its yields: it is evaluated when created, "
+                                    "not as it is consumed (lazy generators with effects are not modelled)" % (f.qualname, acts[0]["name"]))
         return GenVal(out)
 
     def instantiate(self, cls, args, kwargs, node, frame):
@@ -1278,6 +1297,7 @@ class Interp(OpsMixin, BuiltinsMixin, StdlibMixin):
         if r is not _NO:
             return r
         inst = Instance(cls, tuple(args))
+        inst.import_time = bool(self.loading and not self.exploring)
         init, owner = cls.lookup("__init__")
         if isinstance(init, FuncVal):
             self.call_function(init, [inst] + list(args), kwargs, node, frame)
